@@ -1026,7 +1026,10 @@ class Interp:
             x = pick(nodes, d >> 1)
             raw = lib.cJSONUtils_FindPointerFromObjectTo(r1.ptr, x.ptr)
             if not raw:
-                raise Violation("FindPointerFromObjectTo returned NULL for a node of the tree", key="utils-null")
+                # (these trees may hold duplicate keys and key-less members, for which pointer construction promises nothing;
+                # what a pointer must look like is C15's matter - here only the memory accounting counts)
+                self.feat.add("utils")
+                return "utils_pointer(none)"
             text = ctypes.string_at(raw)
             got = (lib.cJSONUtils_GetPointerCaseSensitive if cs else lib.cJSONUtils_GetPointer)(r1.ptr, text)
             lib.cJSON_free(raw)
